@@ -332,6 +332,223 @@ def r126(report, index, lm, pm, tier):
     return r6
 
 
+LONG = 'l' + 'o' * 73 + 'g'
+MSG_VALUES = (('b', 'ID'), (LONG, 'ID'), ('%', 'MOD'), ('%=', 'MODEQUAL'),
+              ('"100%"', 'STRING'), ("'{0}'", 'STRING'),
+              ('/%s{/', 'REGEX'), ('"a  "', 'STRING'))
+LT_SPLIT = '\r\n|[\n\r\u2028\u2029]'
+
+
+def layout_tokens(prefix, values):
+    """text and token stand-ins (value, type, lexpos, lineno, colno) for
+    the values written one blank apart after the prefix"""
+    import re as _re
+    text = prefix
+    toks = []
+    for v, t in values:
+        lexpos = len(text)
+        starts = [0] + [m.end() for m in _re.finditer(LT_SPLIT, text)]
+        toks.append(Obj('LexToken', type=t, value=v, lexpos=lexpos,
+                        lineno=len(starts), colno=lexpos - starts[-1] + 1))
+        text += v + ' '
+    return text, toks
+
+
+def quoted_positions(msg):
+    """[(candidates, line, column)] for every `<quoted text> at L:C` of a
+    message"""
+    import re as _re
+    out = []
+    for m in _re.finditer(
+            r"""('(?:[^'\\]|\\.)*'|"(?:[^"\\]|\\.)*") at (\d+):(\d+)""",
+            msg):
+        cands = {m.group(1)[1:-1]}
+        try:
+            v = ast.literal_eval(m.group(1))
+            if isinstance(v, str):
+                cands.add(v)
+        except (ValueError, SyntaxError):
+            pass
+        out.append((cands, int(m.group(2)), int(m.group(3))))
+    return out
+
+
+def message_problem(text, msg):
+    """None, or why a `<text> at L:C` of the message does not designate a
+    place of the input where that text occurs"""
+    import re as _re
+    starts = [0] + [m.end() for m in _re.finditer(LT_SPLIT, text)]
+    for cands, line, col in quoted_positions(msg):
+        if not 1 <= line <= len(starts) or col < 1:
+            return 'quotes %r at %d:%d, which is outside the input' % (
+                sorted(cands)[0], line, col)
+        off = starts[line - 1] + col - 1
+        if not any(text.startswith(c, off) for c in cands):
+            return 'quotes %r at %d:%d, where the input reads %r' % (
+                sorted(cands, key=len)[-1], line, col, text[off:off + 24])
+    return None
+
+
+def r127(report, index, lm, pm, tier):
+    """syntax-error messages: evaluated from their source on inputs whose
+    tokens are laid out consistently, every `<quoted text> at L:C` they
+    contain designates a place of the input where that text occurs, and
+    nothing but the syntax error is raised while building them"""
+    r7 = report.rule('R12.7', 'the line:column quoted in a syntax-error '
+                     'message is where the quoted text occurs in the input '
+                     '(message builders evaluated on laid-out token '
+                     'scenarios)', floor=60)
+    pmeth = pm.class_methods('Parser')
+    lmeth = lm.class_methods('Lexer')
+    rse = pmeth.get('_raise_syntax_error')
+    t_error = lmeth.get('t_error')
+    t_regex_error = lmeth.get('t_regex_error')
+    if rse is None or t_error is None or t_regex_error is None:
+        raise AnalysisError('an error message builder vanished')
+    n_quoted = [0]
+
+    def judge(key, construct, text, out, where):
+        if not out.startswith(('ECMASyntaxError', 'ECMARegexSyntaxError')):
+            r7.fail(key, construct, 'does not raise the syntax error: %s'
+                    % out[:160], witness=text, where=where)
+            return
+        msg = out.split(':', 1)[1].strip() if ':' in out else out
+        n_quoted[0] += len(quoted_positions(msg))
+        why = message_problem(text, msg)
+        r7.check(why is None, key, construct, 'the message %r %s' % (
+            msg[:200], why), witness=text, where=where)
+
+    def mkexc(kind):
+        return lambda *a: Obj('Exception', kind=kind, args=tuple(a))
+    EXC = {'ECMASyntaxError': mkexc('ECMASyntaxError'),
+           'ECMARegexSyntaxError': mkexc('ECMARegexSyntaxError')}
+
+    def raised_text(e):
+        """`Kind: message` of an evaluated raise"""
+        v = e.value
+        if isinstance(v, Obj) and v.has('kind'):
+            if len(v.args) == 1 and isinstance(v.args[0], str):
+                return '%s: %s' % (v.kind, v.args[0])
+            return 'ECMASyntaxError-with-arguments %r' % (v.args,)
+        return e.text
+
+    def evaluator(*a, **k):
+        ev = Evaluator(*a, **k)
+        ev.evaluate_raises = True
+        ev.functions.update(EXC)
+        return ev
+
+    for prefix in ('', 'q;\n  '):
+        for v, t in MSG_VALUES:
+            # parser: v as previous, offending and next token
+            for role in (0, 1, 2):
+                vals = [('x', 'ID'), ('=', 'EQ'), (']', 'RBRACKET'),
+                        (';', 'SEMI')]
+                vals.insert(1 + role, (v, t))
+                text, toks = layout_tokens(prefix, vals)
+                prev, cur, nxt = toks[1], toks[2], toks[3]
+                lexer = Obj('Lexer', valid_prev_token=prev,
+                            token=('pyfunc', lambda nxt=nxt: nxt))
+                ev = evaluator(pm, 'Parser', pmeth)
+                out = 'returns'
+                try:
+                    ev.call(rse, [cur], self_obj=Obj('Parser', lexer=lexer))
+                except Raised as e:
+                    out = raised_text(e)
+                judge('_raise_syntax_error %s token %s%s' % (
+                    ('previous', 'offending', 'next')[role], describe(v),
+                    ' on line 2' if prefix else ''),
+                    'Parser._raise_syntax_error at %r of %r' % (
+                        cur.value, text), text, out,
+                    'parsers/es5.py:_raise_syntax_error / utils.py:'
+                    'format_lex_token')
+            # lexer: illegal character after v
+            text, toks = layout_tokens(prefix, [('x', 'ID'), ('=', 'EQ'),
+                                                (v, t), ('#', 'error')])
+            import re as _re
+            starts = [0] + [m.end() for m in _re.finditer(LT_SPLIT, text)]
+            err = toks[3]
+            err.value = text[err.lexpos:]
+            for with_prev in (True, False):
+                lexer = Obj('Lexer', cur_token=toks[2] if with_prev else None,
+                            error_token_handlers=[],
+                            newline_idx=list(starts))
+                ev = evaluator(lm, 'Lexer', lmeth)
+                out = 'returns'
+                try:
+                    ev.call(t_error, [err], self_obj=lexer)
+                except Raised as e:
+                    out = raised_text(e)
+                judge('t_error after %s%s' % (
+                    describe(v) if with_prev else 'no token',
+                    ' on line 2' if prefix else ''),
+                    'Lexer.t_error at %r of %r' % ('#', text), text, out,
+                    'lexers/es5.py:t_error / utils.py:format_lex_token')
+        # regex error: the remaining input is quoted
+        text, toks = layout_tokens(prefix, [('x', 'ID'), ('=', 'EQ'),
+                                            ('/ab[c', 'error')])
+        text = text.rstrip(' ')
+        import re as _re
+        starts = [0] + [m.end() for m in _re.finditer(LT_SPLIT, text)]
+        lexer = Obj('Lexer', cur_token=toks[1], newline_idx=list(starts))
+        ev = evaluator(lm, 'Lexer', lmeth)
+        out = 'returns'
+        try:
+            ev.call(t_regex_error, [toks[2]], self_obj=lexer)
+        except Raised as e:
+            out = raised_text(e)
+        judge('t_regex_error%s' % (' on line 2' if prefix else ''),
+              'Lexer.t_regex_error at %r of %r' % ('/ab[c', text), text,
+              out, 'lexers/es5.py:t_regex_error')
+    # unterminated strings and broken escapes
+    h = lm.functions.get('broken_string_token_handler')
+    if h is None:
+        raise AnalysisError('broken_string_token_handler vanished')
+    import re as _re
+    for prefix in ('', 'q;\n  '):
+        for body in ('"ab', "'ab  ", '"abcdefghijklmnopqrstuvwxyz',
+                     '"ab\\x4', "'ab\\uZ", '"ab\\\ncd', '"'):
+            text = prefix + 'x = ' + body
+            lexpos = len(prefix) + 4
+            starts = [0] + [m.end() for m in _re.finditer(LT_SPLIT,
+                                                          text[:lexpos])]
+            lexer = Obj('Lexer', lineno=len(starts),
+                        newline_idx=list(starts),
+                        lexer=Obj('PlyLexer', lexpos=lexpos, lexdata=text,
+                                  lineno=len(starts)))
+            token = Obj('LexToken', type='error', value=text[lexpos:],
+                        lineno=len(starts), lexpos=lexpos)
+            ev = evaluator(lm, None, {}, {'re.match': _re.match},
+                           class_methods={'Lexer': lmeth})
+            out = 'returns'
+            try:
+                ev.call(h, [lexer, token])
+            except Raised as e:
+                out = raised_text(e)
+            judge('broken string %s' % (
+                'longer than the quoted prefix' if len(body) > 17 else
+                shape_of(body) + (' on line 2' if prefix else '')),
+                'broken_string_token_handler at %r of %r' % (body, text),
+                text, out, 'lexers/es5.py:broken_string_token_handler')
+    report.count('R12.7: quoted positions checked', n_quoted[0])
+    if n_quoted[0] < 150:
+        raise AnalysisError('R12.7: only %d `<text> at L:C` positions were '
+                            'found in the evaluated messages: the message '
+                            'format changed, the rule needs re-confirmation'
+                            % n_quoted[0])
+    return r7
+
+
+def describe(v):
+    if len(v) > 48:
+        return 'a %d character identifier' % len(v)
+    return repr(v)
+
+
+def shape_of(body):
+    return repr(body)
+
+
 def run(report, index, tier):
     report.explanation = (
         'May-raise / error-discipline analysis of lexers/es5.py and '
@@ -719,6 +936,7 @@ def run(report, index, tier):
                       'lookup (R12.3 dict rule) already demands')
     # R12.5 ---------------------------------------------------------------
     r126(report, index, lm, pm, tier)
+    r127(report, index, lm, pm, tier)
     from .shared import models
     from engine.actions import Slot
     M = models(index)
